@@ -209,9 +209,10 @@ def step(regs, args, h, ids, k):
 
 def observe(d, ids):
     cols = list(dict.keys(d))
-    lists = {c: list(dict.__getitem__(d, c)) for c in cols}
+    raw = {c: dict.__getitem__(d, c) for c in cols}
+    lists = {c: list(v) for c, v in raw.items() if isinstance(v, (list, tuple))}
     ns = sorted({len(v) for v in lists.values()})
-    o = {'cols': sorted(cols), 'ragged': len(ns) > 1}
+    o = {'cols': sorted(cols), 'ragged': len(ns) > 1 or len(lists) < len(cols)}      # a column that is not a list at all: not a rectangle either
     n = ns[0] if ns else 0
     o['rows'] = [{c: tag(lists[c][i], ids) for c in cols} for i in range(n)] if not o['ragged'] else []
     try:
